@@ -5,6 +5,7 @@ import (
 	"errors"
 	"fmt"
 	"os"
+	"sync"
 	"sync/atomic"
 	"testing"
 	"time"
@@ -729,5 +730,54 @@ func TestC20_GsxOpenRefused(t *testing.T) {
 		sp.Eval()
 		sp.Nontrivial(stats.FP("open-refused", role, restart, withStore))
 		sp.Class("gsx_open_refused_by_handler")
+	})
+}
+
+// TestC20_GsxDiagnosticsRace: the transport's read-only diagnostics (ChannelsForPeer)
+// running from several goroutines while other goroutines receive requests for new
+// channels and clean channels up. Everything must return.
+func TestC20_GsxDiagnosticsRace(t *testing.T) {
+	sp := stats.For("C20")
+	rapid.Check(t, func(t *rapid.T) {
+		r := newGsRig(t)
+		readers := rapid.IntRange(1, 4).Draw(t, "readers")
+		writers := rapid.IntRange(1, 3).Draw(t, "writers")
+		reads := rapid.IntRange(50, 400).Draw(t, "readsEach")
+		writes := rapid.IntRange(20, 150).Draw(t, "writesEach")
+		var wg sync.WaitGroup
+		for g := 0; g < readers; g++ {
+			wg.Add(1)
+			go func() {
+				defer wg.Done()
+				for i := 0; i < reads; i++ {
+					_ = r.tr.ChannelsForPeer(gen.Peer(1 + i%3))
+				}
+			}()
+		}
+		for g := 0; g < writers; g++ {
+			g := g
+			wg.Add(1)
+			go func() {
+				defer wg.Done()
+				for i := 0; i < writes; i++ {
+					other := gen.Peer(1 + i%3)
+					tid := datatransfer.TransferID(1000*g + i)
+					chid := datatransfer.ChannelID{Initiator: other, Responder: r.self, ID: tid}
+					req := newRequestMsg(tid, false, true, datatransfer.TypedVoucher{Type: "T/a", Voucher: basicnode.NewString("v")}, simpleCid(1), strNode("sel"))
+					rd := &dbl.ReqData{RID: graphsync.NewRequestID(), RootCid: simpleCid(1), Sel: strNode("sel"), Typ: graphsync.RequestTypeNew,
+						Exts: dbl.ExtMap([]graphsync.ExtensionData{{Name: extension.ExtensionDataTransfer1_1, Data: req.ToIPLD()}})}
+					r.gs.IncomingRequestHook(other, rd, &dbl.InReqActions{})
+					if i%2 == 0 {
+						r.tr.CleanupChannel(chid)
+					}
+				}
+			}()
+		}
+		if ok, dump := joinOrDump(&wg, watchdog); !ok {
+			mfail(t, nil, "C20/transport-deadlock", "ChannelsForPeer from %d goroutines against %d goroutines receiving requests and cleaning up did not finish within %s:\n%s", readers, writers, watchdog, dump)
+		}
+		sp.Eval()
+		sp.Nontrivial(stats.FP("diag-race", readers, writers, reads/50, writes/20))
+		sp.Class("gsx_diagnostics_vs_channel_map_writers")
 	})
 }
